@@ -5,7 +5,7 @@ patch=$(readlink -f "$1"); shift
 props="$@"
 cd "$(dirname "$0")/.."
 [ -z "$props" -o "$props" = all ] && props=$(ls sa/props/c*.py | sed 's/.*\/c\([0-9]*\)\.py/C\1/')
-d=$(mktemp -d /tmp/onpatch_XXXXXX)
+d=$(mktemp -d /root/scratch/onpatch_XXXXXX)
 trap 'rm -rf "$d"' EXIT
 mkdir -p "$d/cassandra" && rsync -a --exclude=__pycache__ --exclude='*.so' --exclude='*.pyc' ${VERIF_REPO:-/repo}/cassandra/ "$d/cassandra/"
 ( cd "$d" && git apply --include='cassandra/*' -p1 "$patch" ) || { echo "patch does not apply"; exit 3; }
